@@ -466,6 +466,26 @@ pub fn c10(opts: &Opts, out: &mut Out) {
             }
         }
     }
+    // seeds at the top of the scalar range: s in [2^252, l) and s - 2^252 are different seeds (a key derivation that
+    // drops the top bits of the encoding would confuse them)
+    {
+        let two252 = Scalar::from(1u128 << 126) * Scalar::from(1u128 << 126);
+        for (n, t, low) in [(8usize, 1usize, 5u64), (4, 2, 0), (16, 3, 123_456_789)] {
+            let mut inst = fmrun::random_inst(n, 1, 1, t, 4, true, &mut rng);
+            let hi = two252 + Scalar::from(low);
+            inst.seed = Some(hi);
+            let Ok(proof) = inst.prove(&mut rng) else { continue };
+            for (wrong_name, wrong) in [("s - 2^252", Scalar::from(low)), ("s + 1", hi + Scalar::ONE), ("-s", -hi)] {
+                let stmt = inst.statement_with(inst.cap, Some(wrong)).unwrap();
+                for a in [VerifyAction::RecoverOnly, VerifyAction::RecoverAndVerify] {
+                    let m = masks_of(&fmrun::verify_one(&inst, &stmt, &proof, a)).and_then(|v| v.into_iter().next()).flatten();
+                    out.oracle("C10:wrong-seed-different-mask", m.is_some() && m.as_ref() != Some(&inst.blindings[0]), &format!("seed 2^252+{} n={} t={} wrong seed {} action={:?}", low, n, t, wrong_name, a), "a different seed recovers the true mask");
+                }
+            }
+            let m = masks_of(&fmrun::verify_one(&inst, &inst.statement(), &proof, VerifyAction::RecoverOnly)).and_then(|v| v.into_iter().next()).flatten();
+            out.oracle("C10:same-seed-true-mask", m.as_ref() == Some(&inst.blindings[0]), &format!("seed 2^252+{} n={} t={}", low, n, t), "true seed does not give the true mask");
+        }
+    }
     // the two recovering modes agree member by member in MIXED batches too (a seeded single after a larger aggregate,
     // before one, between two): whatever one mode keeps between members, the other keeps alike
     for (n, t) in [(4usize, 1usize), (8, 2)] {
